@@ -233,11 +233,13 @@ type opRec struct {
 	auto    bool // issued by the final drain phase
 	done    chan struct{}
 	gid     atomic.Int64
+	normal  atomic.Bool // set before done is closed: the call returned without a panic
 }
 
 type nstate struct {
 	closeIssued int
 	firstClose  *opRec
+	closeOps    []*opRec
 	waitIssued  bool
 	tasksAdded  int
 	doneIssued  int
@@ -263,8 +265,8 @@ type exec struct {
 }
 
 const (
-	wdStep  = 20 * time.Second // one call that should return at once / before-close to be observed
-	wdDrain = 40 * time.Second
+	wdStep  = 12 * time.Second // one call that should return at once / before-close to be observed
+	wdDrain = 30 * time.Second
 	wdDone  = 6 * time.Second // Done() of an isolated context after its parent ended
 )
 
@@ -464,6 +466,7 @@ func (x *exec) execOp(op *opRec) {
 		}
 	}()
 	x.log.add(res)
+	op.normal.Store(res.Panic == "")
 	if op.k == kAppend || op.k == kKill || op.k == kStop {
 		// what the parent looks like right after an error / kill / stop in the child
 		if p := x.plan.Nodes[op.n].P; p >= 0 {
@@ -513,6 +516,17 @@ func (x *exec) join(op *opRec, what string) bool {
 	return false
 }
 
+// closedNormally: one of the Close calls on n has returned without a panic (with two racing
+// Close calls either may be the one that does the work).
+func (x *exec) closedNormally(n int) bool {
+	for _, op := range x.st[n].closeOps {
+		if isDone(op.done) && op.normal.Load() {
+			return true
+		}
+	}
+	return false
+}
+
 // completable: a close of n issued now can return without any further step.
 func (x *exec) completable(n int) bool {
 	st := &x.st[n]
@@ -525,11 +539,8 @@ func (x *exec) completable(n int) bool {
 		}
 	}
 	for c, ns := range x.plan.Nodes {
-		if ns.P == n {
-			fc := x.st[c].firstClose
-			if fc == nil || !isDone(fc.done) {
-				return false
-			}
+		if ns.P == n && !x.closedNormally(c) {
+			return false
 		}
 	}
 	return true
@@ -621,6 +632,7 @@ func (x *exec) step(o OpSpec, auto bool) bool {
 			op := x.start(kClose, o.N, 0)
 			op.auto = auto
 			st.firstClose = op
+			st.closeOps = append(st.closeOps, op)
 			st.closeIssued++
 			go x.execOp(op)
 			switch mode {
@@ -641,9 +653,11 @@ func (x *exec) step(o OpSpec, auto bool) bool {
 			return true
 		}
 		st.closeIssued++
+		begun := isDone(x.bc[o.N]) // decided before the call starts: it may itself win a race with the first one
 		op := x.start(kClose, o.N, 1)
+		st.closeOps = append(st.closeOps, op)
 		go x.execOp(op)
-		if isDone(x.bc[o.N]) {
+		if begun {
 			// the first close has begun: the second one must be refused at once
 			if !x.join(op, "second close") {
 				return false
@@ -720,6 +734,7 @@ func runPlan(r *sup.CaseResult, p *Plan) {
 	}
 	if !ok {
 		x.diagnoseStuck(r)
+		r.AddObs("watchdog_expired", 1)
 		return
 	}
 	// final observations: every scope once more
@@ -762,6 +777,7 @@ func (x *exec) checkIsolatedStops(r *sup.CaseResult, ck *checker, all bool) {
 			continue
 		case <-t.C:
 		}
+		r.AddObs("watchdog_expired", 1)
 		// watchdog expired. Only the watcher goroutine started by NewIsolated can end this
 		// context; if no such goroutine exists any more the context can never end.
 		dump := dumpAll()
@@ -812,7 +828,7 @@ func (x *exec) diagnoseStuck(r *sup.CaseResult) {
 			verdict = true
 			stuckOps = append(stuckOps, g1.raw)
 		}
-		if op.k == kClose && x.st[op.n].firstClose == op && !isDone(x.bc[op.n]) && parked(g1) && parked(g2) && same && inWG {
+		if op.k == kClose && !isDone(x.bc[op.n]) && parked(g1) && parked(g2) && same && inWG {
 			// the only goroutine that can fire before-close of this scope sits in the wait already
 			r.Violate("before-close-not-fired-before-waiting", fmt.Sprintf("Close of scope %d is parked in the scope's wait group and before-close of that scope was never fired: the wait started without it", op.n),
 				map[string]any{"plan": x.plan.String(), "goroutine": g1.raw, "log": renderLog(x.log.snapshot(), 120)})
@@ -840,11 +856,8 @@ func (x *exec) completableNow(n int) bool {
 		}
 	}
 	for c, ns := range x.plan.Nodes {
-		if ns.P == n {
-			fc := x.st[c].firstClose
-			if fc == nil || !isDone(fc.done) {
-				return false
-			}
+		if ns.P == n && !x.closedNormally(c) {
+			return false
 		}
 	}
 	return true
